@@ -1,6 +1,7 @@
 package main
 
 import (
+	"runtime/debug"
 	"encoding/json"
 	"flag"
 	"fmt"
@@ -57,7 +58,7 @@ func main() {
 		}
 	}
 	t0 := time.Now()
-	timeout := 10 * time.Second
+	timeout := 20 * time.Second
 	if *tier == "thorough" {
 		timeout = 60 * time.Second
 	}
@@ -118,6 +119,9 @@ func main() {
 				defer func() {
 					if r := recover(); r != nil {
 						verr = fmt.Errorf("internal error: %v", r)
+						if os.Getenv("GOVC_DEBUG") != "" {
+							fmt.Fprintf(os.Stderr, "%s\n", debug.Stack())
+						}
 					}
 				}()
 				verr = vc.Verify()
